@@ -22,7 +22,7 @@ def main(tier, replay=None):
                 "machine crash with every keep/lose pattern of unsynced files, each applicable errno, short write, short/interrupted read}; "
                 "level 2 (thorough) = every pair; the all-or-nothing invariant is evaluated after every call and on every post-crash image; "
                 "distinct = distinct (input, exit status, final queue tree)")
-    res.assumptions = ["virtual kernel semantics (DESIGN.md appendix A), bound to Linux by vk/conformance",
+    res.assumptions = ["virtual kernel semantics (DESIGN.md appendix A), bound to Linux by bin/conformance",
                        "crash model of conf-qmail: directory operations synchronous, file data since last fsync may be lost per file, single writes not torn"]
     res.require_nonzero("evaluations", "machine_crashes", "process_kills", "faults_injected", "states_committed", "states_S3_leftover", "exits_success", "exits_failure")
     res.notes.append("virtual kernel vs Linux: %d operation sequences compared before this run, all agree (bin/conformance)" % nconf)
